@@ -265,3 +265,10 @@ func (v *Value) CompareAndSwap(o, n any) bool {
 	step("atomic.Value.Cas", unsafe.Pointer(&v.v), vsched.KAtomRMW)
 	return v.v.CompareAndSwap(o, n)
 }
+
+// BlindAdd: the rewriter uses these for x.Add(d) statements (result discarded).
+func (u *Uint64) BlindAdd(d uint64)   { BlindAddUint64(&u.v, d) }
+func (u *Uint32) BlindAdd(d uint32)   { BlindAddUint32(&u.v, d) }
+func (u *Int64) BlindAdd(d int64)     { BlindAddInt64(&u.v, d) }
+func (u *Int32) BlindAdd(d int32)     { BlindAddInt32(&u.v, d) }
+func (u *Uintptr) BlindAdd(d uintptr) { AddUintptr(&u.v, d) }
